@@ -1230,7 +1230,7 @@ class Interp:
         short = name.split(".")[-1]
         args = self._flatten_pos(fr, pos, 8)
         a0 = args[0] if args else EMPTY
-        generic = lambda: self.der((self.site(fr, node, "call:" + short), fr.ctx), *args, *kw.values(), starkw)
+        generic = lambda: self.der((self.site(fr, node, "call:" + short), fr.ctx), frozenset([("ext", name)]), *args, *kw.values(), starkw)
         if name in ("builtins.tuple", "builtins.list", "builtins.set", "builtins.frozenset", "builtins.sorted",
                     "builtins.reversed", "builtins.iter"):
             kind = {"sorted": "list", "reversed": "list", "iter": "gen"}.get(short, short)
